@@ -58,6 +58,8 @@ impl<const BITS: usize, const LIMBS: usize> Uint<BITS, LIMBS> {
         // See <https://gmplib.org/manual/Nth-Root-Algorithm>
         let mut decreasing = false;
         loop {
+            #[cfg(recmo_uint_verif)]
+            crate::__verif::tick(crate::__verif::LOOP_ROOT);
             // OPT: This could benefit from single-limb multiplication
             // and division.
             //
@@ -67,6 +69,13 @@ impl<const BITS: usize, const LIMBS: usize> Uint<BITS, LIMBS> {
                 .checked_pow(deg_m1)
                 .map_or(Self::ZERO, |power| self / power);
             let iter = (division + deg_m1 * result) / Self::from(degree);
+            #[cfg(recmo_uint_verif)]
+            crate::__verif::hit(match (decreasing, iter.cmp(&result)) {
+                (_, Ordering::Equal) => crate::__verif::ROOT_FIXPOINT,
+                (true, Ordering::Greater) => crate::__verif::ROOT_STOP_INCREASE,
+                (false, Ordering::Greater) => crate::__verif::ROOT_CAPPED_INCREASE,
+                (_, Ordering::Less) => crate::__verif::ROOT_DECREASE,
+            });
             match (decreasing, iter.cmp(&result)) {
                 // Stop when we hit fix point or stop decreasing.
                 (_, Ordering::Equal) | (true, Ordering::Greater) => break result,
